@@ -40,12 +40,22 @@ def const_term(k):
         return ("fn", strip_generics(k.get("rfn", k["fn"])), k.get("fnargs", ""))
     if "closure" in k:
         return ("closure", k["closure"], ())
+    if "static" in k:
+        return ("c", ty, "static " + k["static"])
     v = k.get("ev", k["v"])
     if v.startswith("const "):
         v = v[6:]
     m = INT_RE.match(v)
     if m:
         return ("c", m.group(2), int(m.group(1)))
+    m = re.match(r"^([iu])(8|16|32|64|128|size)::(MAX|MIN)$", v)
+    if m:
+        bits = 64 if m.group(2) == "size" else int(m.group(2))
+        if m.group(1) == "u":
+            val = (1 << bits) - 1 if m.group(3) == "MAX" else 0
+        else:
+            val = (1 << (bits - 1)) - 1 if m.group(3) == "MAX" else -(1 << (bits - 1))
+        return ("c", m.group(1) + m.group(2), val)
     if v in ("true", "false") and ty == "bool":
         return ("c", "bool", v == "true")
     if ty == "char" and len(v) >= 3 and v[0] == "'":
